@@ -25,19 +25,7 @@ def lib_call(interp, name, args, fr):
     interp.traces.setdefault("calls", []).append((name,) + tuple(args))
     if getattr(interp, "clock", None) is not None:
         interp.traces.setdefault("call_times", []).append((name, interp.clock))
-    fc = interp.reg.fns.get(getattr(interp, "unit_qual", ""))
-    reqs = (fc.model_opts.get("call_requires") or {}).get(name) if fc is not None else None
-    if reqs:
-        unit = getattr(interp, "unit_name", "?")
-        env = {}
-        f = fr
-        while f is not None:
-            for k, v in f.locals.items():
-                env.setdefault(k, v)
-            f = f.parent
-        for cl in mk_clauses(f"{name}.pre", reqs, fc.props):
-            v = interp.spec_eval_p(cl, env, None, getattr(interp, "unit_module", None))
-            interp.ctx.prove(f"{unit}.call.{cl.name}", interp.as_z3_bool(v), cl.text, fr.where(), note=f"obligation attached to every call of {name}", props=cl.props)
+    interp.unit_call_requires(name, fr)
 
 
 # ------------------------------------------------------------------------------------ object lists
@@ -52,12 +40,27 @@ class ObjListModel:
         return _ObjSource(obj)
 
     def m_append(self, interp, obj, args, kwargs, fr):
-        return None  # still a list of any length of such objects
+        obj.fields.pop("n", None)  # still a list of such objects, one longer
+        return None
+
+    @staticmethod
+    def length_of(interp, obj):
+        n = obj.fields.get("n")
+        if n is None:
+            n = obj.fields["n"] = SymInt(interp.ctx.fresh((obj.tag or "list") + ".len", z3.IntSort()))
+            interp.ctx.assume(n.e >= 0)
+        return n.e
+
+    def m___len__(self, interp, obj, args, kwargs, fr):
+        return mk_int(self.length_of(interp, obj))
 
 
 class _ObjSource:
     def __init__(self, lst):
         self.lst = lst
+
+    def length(self, interp):
+        return ObjListModel.length_of(interp, self.lst)
 
     def elem(self, interp, i, fr):
         return interp.make_symbolic(self.lst.fields["elem_ty"], interp.ctx.fresh_name((self.lst.tag or "list") + "[i]"))
@@ -86,6 +89,9 @@ class TrioListenerModel:
 @register(name="asyncio:Server")
 class AsyncioServerModel:
     ASYNC = ("wait_closed",)
+
+    def symbolic(self, interp, name):
+        return SObj("asyncio:Server", {"closing": SymBool(z3.Bool(interp.ctx.fresh_name(name + ".closing")))}, tag=name)
 
     def m_close(self, interp, obj, args, kwargs, fr):
         lib_call(interp, "Server.close", [obj], fr)
@@ -159,7 +165,10 @@ def _serve_builtins(interp):
     def get_event_loop(a, k, fr):
         return SObj("asyncio:Loop", {}, tag="loop")
 
+    import platform
+
     return {
+        platform.system: lambda a, k, fr: "Linux",  # assumed: not Windows (the socket sharing branch is outside the contract)
         random.randint: randint,
         trio.socket.from_stdlib_socket: from_stdlib_socket,
         trio.SocketListener: socket_listener,
